@@ -61,3 +61,8 @@ def api_consistency(obj, new, text, dump_kwargs=None):
     finally:
         shutil.rmtree(work, ignore_errors=True)
     return problems
+
+
+# the architecture names the library documents (a frozen copy of productmd.common.RPM_ARCHES as shipped); the live table
+# may grow, every name listed here must stay known
+DOC_RPM_ARCHES = ["aarch64", "alpha", "alphaev4", "alphaev45", "alphaev5", "alphaev56", "alphaev6", "alphaev67", "alphaev68", "alphaev7", "alphapca56", "amd64", "arm64", "armhfp", "armv5tejl", "armv5tel", "armv5tl", "armv6hl", "armv6l", "armv7hl", "armv7hnl", "armv7l", "armv8hl", "armv8l", "athlon", "geode", "i386", "i486", "i586", "i686", "ia32e", "ia64", "loongarch64", "mips", "mips64", "mips64el", "mipsel", "ppc", "ppc64", "ppc64iseries", "ppc64le", "ppc64p7", "ppc64pseries", "riscv128", "riscv32", "riscv64", "s390", "s390x", "sh3", "sh4", "sh4a", "sparc", "sparc64", "sparc64v", "sparcv8", "sparcv9", "sparcv9v", "x86_64", "src", "nosrc", "noarch"]
